@@ -10,7 +10,7 @@ from hypothesis import strategies as st
 from .. import core, rsmodel, session, histories, strategies as S
 from ..core import Part, Violation, guard
 
-RULE = ("(1) Harness-owned schedules: the real keypress() runs in a real thread; its input() blocks on a harness queue, so the "
+RULE = ("(Part huge_preterminal: requests 1 / 999..1001 / 4096 / 65535..65537 / 99999..100001 / 131072 / n-1 / n guesses into ONE pre-terminal of 10 100-160 000 guesses, then resume; same oracle. The status report's clock is real or harness-owned with steps of 45 s / 3700 s / 100000 s.) (1) Harness-owned schedules: the real keypress() runs in a real thread; its input() blocks on a harness queue, so the "
         "harness decides at which loop position (before/after the i-th pop, after the j-th written guess, inside a Markov level, "
         "inside a Markov remainder restored from a save file) a status request '', help 'h', quit 'q' (each also in an interleaved form in which the keyboard thread, traced with sys.settrace, executes only 1-12 lines of repository code per loop position, so that the generation loop runs between any two lines of the status code), EOFError, RuntimeError "
         "(lost sys.stdin), OSError, ValueError or a failing status print arrives, and waits until the thread is blocked again or "
@@ -92,7 +92,7 @@ def prop(case, rec):
     if not u.lines:
         rec.skip('empty_language')
         return
-    if len(u.lines) > 150:
+    if len(u.lines) > case.get('max_stream', 150):
         rec.skip('stream_too_long')
         return
     sm = histories.run_history(case, root, u, case['schedules'])
@@ -112,7 +112,33 @@ def prop(case, rec):
     if case.get('clock_step') and sm['status_requests']:
         cls.append('status_with_minutes_hours_days_elapsed')
     nontriv = bool(sm['thread_ended_by_stdin'] or sm['quits_inside_markov'] or sm['events_in_remainder'] or sm.get('interleaved_events'))
+    if case.get('huge'):
+        cls.append('request_inside_preterminal_of_%d_guesses' % case['huge'])
+        nontriv = True
     rec.case({'schedules': case['schedules'], 'runs': sm['runs'], 'U': len(u.lines)}, nontriv, cls, key=case)
+
+
+@st.composite
+def huge_cases(draw, shapes):
+    """Requests that arrive while ONE pre-terminal of 10 000 .. 160 000 guesses (two tied groups multiplied) is being written."""
+    a, b = draw(st.sampled_from(shapes))
+    o = ['!' + chr(0x4e00 + i) for i in range(a)]                 # O2: a values of equal probability
+    d = [str(i).zfill(3) for i in range(b)]                       # D3: b values of equal probability
+    vars_ = {'O2': [[0.1, ['??']], [0.9 / a, o]], 'D3': [[0.05, ['999']], [0.9 / b, d]], 'D1': [[0.6, ['1']], [0.4, ['2']]]}
+    base = [['D1', 0.5], ['O2D3', 0.4], ['D1D1', 0.1]]
+    m = {'encoding': 'utf-8', 'uuid': 'c12-huge', 'vars': vars_, 'base': base, 'm_levels': []}
+    n = a * b
+    start = 2 + 4 + 1 + b + a            # stream position at which the big pre-terminal (the least probable one) begins
+    marks = [k for k in (1, 999, 1000, 1001, 4096, 9999, 10001, 65535, 65537, 99999, 100000, 100001, 131072, n - 1, n) if k <= n]
+    pos = sorted({start + draw(st.sampled_from(marks)) + draw(st.sampled_from([0, 0, 1, 2])) for _ in range(draw(st.integers(1, 3)))})
+    evs = [[['guess', k], draw(st.sampled_from(['', 'h', '']))] for k in pos[:-1]] + [[['guess', pos[-1]], 'q']]
+    return {'model': m, 'schedules': [evs, draw(schedule(2)), []], 'clock_step': None, 'max_stream': 400000, 'huge': n}
+
+
+def run_huge(rec, seed, shard, nshards, tier):
+    n = {'quick': 4, 'thorough': 12}[tier]
+    shapes = {'quick': [(330, 320), (101, 100)], 'thorough': [(101, 100), (260, 255), (330, 320), (400, 400)]}[tier]
+    core.hyp_run(rec, prop, huge_cases(shapes), n, seed, shrink=False)
 
 
 def run_sched(rec, seed, shard, nshards, tier):
@@ -235,4 +261,5 @@ PARTS = [
     Part('regressions', run_regress, prop, {'quick': 1, 'thorough': 1}),
     Part('schedules', run_sched, prop, {'quick': 8, 'thorough': 16}),
     Part('real_stdin', run_real_part, prop_real, {'quick': 6, 'thorough': 12}),
+    Part('huge_preterminal', run_huge, prop, {'quick': 2, 'thorough': 8}),
 ]
